@@ -1571,3 +1571,27 @@ mod bench {
         b.iter(|| compute_error(black_box(&qp), black_box(&signal), black_box(&mut errors)));
     }
 }
+
+#[cfg(flacenc_verif)]
+#[doc(hidden)]
+pub mod verif_hooks {
+    use super::*;
+
+    pub fn error(qps: &QuantizedParameters, signal: &[i32], errors: &mut [i32]) {
+        compute_error(qps, signal, errors);
+    }
+
+    /// (coefs, shift, precision)
+    pub fn quantize(coefs: &[f64], precision: usize) -> (Vec<i16>, i8, usize) {
+        let q = quantize_parameters(coefs, precision);
+        (
+            (0..q.order()).map(|i| q.coefficient(i).unwrap()).collect(),
+            q.shift(),
+            q.precision(),
+        )
+    }
+
+    pub fn from_parts(coefs: &[i16], shift: i8, precision: usize) -> QuantizedParameters {
+        QuantizedParameters::from_parts(coefs, coefs.len(), shift, precision)
+    }
+}
